@@ -21,8 +21,15 @@ fn load(case: &Value, settings: &mut Settings, dir: &Path) -> Result<TxnData, St
             if let Some(parent) = p.parent() {
                 std::fs::create_dir_all(parent).map_err(|e| e.to_string())?;
             }
-            std::fs::write(&p, f.get("text").and_then(|x| x.as_str()).unwrap_or(""))
-                .map_err(|e| e.to_string())?;
+            if let Some(target) = f.get("symlink").and_then(|x| x.as_str()) {
+                // a directory entry that is a symbolic link (to `target`, relative to the journal directory;
+                // the target may not exist: a dangling link)
+                #[cfg(unix)]
+                std::os::unix::fs::symlink(d.join(target), &p).map_err(|e| e.to_string())?;
+            } else {
+                std::fs::write(&p, f.get("text").and_then(|x| x.as_str()).unwrap_or(""))
+                    .map_err(|e| e.to_string())?;
+            }
             paths.push(p);
         }
         if b(case, "walk", false) {
